@@ -1276,6 +1276,60 @@ def _thread_empty_results(body: list[ast.stmt]) -> bool:
     return changed
 
 
+def _thread_if_flags(body: list[ast.stmt]) -> bool:
+    """`if a: t = False  elif b: t = True  else: ...; t = E` followed by `if not t: X`  ->  the test moves to the leaves:
+    X where t is False, nothing where it is True, `if not t: X` (t just assigned from E) elsewhere. What is left of a
+    helper with several `return <bool>` whose result the caller tests once."""
+    changed = False
+    i = 0
+    while i + 1 < len(body):
+        s1, s2 = body[i], body[i + 1]
+        done = False
+        if isinstance(s1, ast.If) and s1.orelse and isinstance(s2, ast.If):
+            t, neg = s2.test, False
+            while isinstance(t, ast.UnaryOp) and isinstance(t.op, ast.Not):
+                t, neg = t.operand, not neg
+            if isinstance(t, ast.Name) and "_inl" in t.id:
+                x = t.id
+                when_true, otherwise = (s2.orelse, s2.body) if neg else (s2.body, s2.orelse)
+
+                def leaves(blk: list) -> list | None:
+                    if not blk:
+                        return None
+                    last = blk[-1]
+                    if isinstance(last, ast.If) and last.orelse:
+                        a, b = leaves(last.body), leaves(last.orelse)
+                        return None if a is None or b is None else a + b
+                    if isinstance(last, ast.Assign) and len(last.targets) == 1 and isinstance(last.targets[0], ast.Name) \
+                            and last.targets[0].id == x:
+                        return [blk]
+                    return None
+                ls = leaves(s1.body)
+                lo = leaves(s1.orelse)
+                size = sum(1 for blk in (when_true, otherwise) for st in blk for _ in ast.walk(st))
+                if ls is not None and lo is not None and size <= 200:
+                    for blk in ls + lo:
+                        v = blk[-1].value
+                        if isinstance(v, ast.Constant) and isinstance(v.value, bool):
+                            blk.extend(copy.deepcopy(when_true if v.value else otherwise))
+                        else:
+                            blk.append(copy.deepcopy(s2))
+                    del body[i + 1]
+                    changed = done = True
+        if not done:
+            i += 1
+    for st in body:
+        if isinstance(st, (ast.FunctionDef, ast.ClassDef)):
+            continue
+        for fld in ("body", "orelse", "finalbody"):
+            b = getattr(st, fld, None)
+            if isinstance(b, list) and b and isinstance(b[0], ast.stmt):
+                changed |= _thread_if_flags(b)
+        for h in getattr(st, "handlers", []) or []:
+            changed |= _thread_if_flags(h.body)
+    return changed
+
+
 def _split_tuple_assigns(fn: ast.FunctionDef) -> None:
     """a, b = (e1, e2)  ->  a = e1; b = e2   (left behind where a helper that returns a tuple was inlined)"""
     class T(ast.NodeTransformer):
@@ -1661,6 +1715,56 @@ def apply(repo) -> dict:
         if wn[0]:
             repo.reindex()
             new0 = {k: f for k, f in repo.functions.items() if k not in known}
+    # `return all(helper(x) for x in S)` with a new multi-statement helper: the quantifier becomes the loop it abbreviates
+    # (`for x in S: if not helper(x): return False` / `return True`), where the call can be inlined
+    if new0:
+        qn = [0]
+        for f in list(repo.functions.values()):
+            def lower_q(body: list) -> None:
+                k = 0
+                while k < len(body):
+                    st = body[k]
+                    if isinstance(st, ast.Return) and isinstance(st.value, ast.Call) and isinstance(st.value.func, ast.Name) \
+                            and st.value.func.id in ("all", "any") and len(st.value.args) == 1 and not st.value.keywords \
+                            and isinstance(st.value.args[0], (ast.GeneratorExp, ast.ListComp)) and len(st.value.args[0].generators) == 1 \
+                            and not st.value.args[0].generators[0].is_async:
+                        ge = st.value.args[0]
+                        calls_new = [c for c in ast.walk(ge.elt) if isinstance(c, ast.Call) and repo.resolve_call(f, c) in new0
+                                     and not (len(_body(new0[repo.resolve_call(f, c)].node)) == 1
+                                              and isinstance(_body(new0[repo.resolve_call(f, c)].node)[0], ast.Return))]
+                        if calls_new:
+                            is_all = st.value.func.id == "all"
+                            g = ge.generators[0]
+                            test = ast.UnaryOp(ast.Not(), ge.elt) if is_all else ge.elt
+                            inner: list[ast.stmt] = [ast.If(test, [ast.Return(ast.Constant(not is_all))], [])]
+                            for c in reversed(g.ifs):
+                                inner = [ast.If(c, inner, [])]
+                            lp = ast.For(g.target, g.iter, inner, [])
+                            for y in ast.walk(g.target):
+                                if isinstance(y, ast.Name):
+                                    y.ctx = ast.Store()
+                            fin = ast.Return(ast.Constant(is_all))
+                            for x in (lp, fin):
+                                ast.copy_location(x, st)
+                                ast.fix_missing_locations(x)
+                                for y in ast.walk(x):
+                                    if hasattr(y, "lineno"):
+                                        y.lineno = y.end_lineno = st.lineno
+                            body[k:k + 1] = [lp, fin]
+                            qn[0] += 1
+                            k += 1
+                    elif not isinstance(st, (ast.FunctionDef, ast.ClassDef)):
+                        for fld in ("body", "orelse", "finalbody"):
+                            b = getattr(st, fld, None)
+                            if isinstance(b, list) and b and isinstance(b[0], ast.stmt):
+                                lower_q(b)
+                        for h in getattr(st, "handlers", []) or []:
+                            lower_q(h.body)
+                    k += 1
+            lower_q(f.node.body)
+        if qn[0]:
+            repo.reindex()
+            new0 = {k: f for k, f in repo.functions.items() if k not in known}
     gens0 = {k for k, f in new0.items() if eligible_generator(f.node)}
     if gens0:
         # `xs = [E(a) for a in new_generator(..)]`  ->  `xs = []; for a in new_generator(..): xs.append(E(a))`, so that the
@@ -1764,6 +1868,8 @@ def apply(repo) -> dict:
         if _thread_empty_results(f.node.body):
             ast.fix_missing_locations(f.node)
         if any(k.split(" -> ")[1].split(" [")[0] == f.key for k in report["inlined"]) and _thread_flags(f.node.body):
+            ast.fix_missing_locations(f.node)
+        if any(k.split(" -> ")[1].split(" [")[0] == f.key for k in report["inlined"]) and _thread_if_flags(f.node.body):
             ast.fix_missing_locations(f.node)
     # remove new functions without remaining references
     new = {k: f for k, f in repo.functions.items() if k not in known}
